@@ -125,6 +125,9 @@ structure World where
   budget : Budget.St := {}
   breaker : Breaker.St := {}
   xc : XCtx := {}
+  /-- C15's twin semantics: when set, an `Exception` raised by an observability hook (metric / log /
+      before_sleep) counts as a normal return of the same duration.  `false` in every real run. -/
+  silent : Bool := false
 
 abbrev M := EStateM Exn World
 
@@ -141,6 +144,26 @@ def ask (r : Req) : M Ans := do
     match a with
     | .raise e _ => throw e
     | _ => pure a
+
+/-- What an observability hook's answer amounts to under the silent-hook twin semantics. -/
+def Ans.silenced : Ans → Ans
+  | .raise e d => if e.isException then .unit d else .raise e d
+  | a => a
+
+/-- `ask` at an observability-hook call site (`on_metric`, `on_log`, `before_sleep`).  Identical to
+    `ask` unless `World.silent` is set (C15's twin: "the same run with silent hooks"). -/
+def askHook (r : Req) : M Ans := do
+  let w ← get
+  match w.answers with
+  | [] =>
+    set { w with trace := (r, Ans.raise .stuck 0) :: w.trace }
+    throw .stuck
+  | a :: rest =>
+    let a' := if w.silent then a.silenced else a
+    set { w with answers := rest, now := w.now + a.dur, trace := (r, a') :: w.trace }
+    match a' with
+    | .raise e _ => throw e
+    | _ => pure a'
 
 /-- Record an interaction with an embedded component (no oracle answer is consumed). -/
 def logInternal (r : Req) (a : Ans) : M Unit :=
